@@ -148,6 +148,7 @@ BODIES = {
     "flags": "9700",                 # SC ; NOP   (callee changes C: RET/RETF keep it, RETI restores the saved F)
     "set_bp": "32ccec40",            # MV (EC),0x40: the callee moves BP (returns must not address through it)
     "set_px_py": "32cced1132ccee22",  # MV (ED),0x11 ; MV (EE),0x22
+    "set_imr": "32ccfb55",           # MV (FB),0x55: the callee rewrites the interrupt mask (RETI restores the saved byte, RET/RETF keep 0x55)
 }
 
 
@@ -188,7 +189,7 @@ def _pairs(args):
                             mem_extra[0xFFFFA] = callee & 0xFF
                             mem_extra[0xFFFFB] = (callee >> 8) & 0xFF
                             mem_extra[0xFFFFC] = (callee >> 16) & 0xFF
-                        nbody = {"empty": 0, "nops": 2, "pushs_pops": 2, "pushu_popu": 2, "flags": 2, "set_bp": 1, "set_px_py": 2}[bname]
+                        nbody = {"empty": 0, "nops": 2, "pushs_pops": 2, "pushu_popu": 2, "flags": 2, "set_bp": 1, "set_px_py": 2, "set_imr": 1}[bname]
                         out, regs, mem = execute(code, addr, flags, steps=2 + nbody, mem_extra=mem_extra)
                         n += 1
                         wit = {"pair": kind, "addr": addr, "body": bname, "flags": flags, "imr": imr}
@@ -204,8 +205,9 @@ def _pairs(args):
                         exp_f = flags if (kind.endswith("IR") or bname != "flags") else (flags | 1)
                         if (out["regs"]["F"] & 3) != (exp_f & 3):
                             vb.add(f"C05/pair/{kind}/flags", f"{kind} @ {addr:#x} body {bname}: F {flags:#x} -> {out['regs']['F']:#x} expected {exp_f:#x}", wit)
-                        if out["regs"]["IMR"] != imr:
-                            vb.add(f"C05/pair/{kind}/interrupt-mask", f"{kind} @ {addr:#x} body {bname}: IMR {imr:#x} -> {out['regs']['IMR']:#x}", wit)
+                        exp_imr = imr if (kind.endswith("IR") or bname != "set_imr") else 0x55
+                        if out["regs"]["IMR"] != exp_imr:
+                            vb.add(f"C05/pair/{kind}/interrupt-mask", f"{kind} @ {addr:#x} body {bname}: IMR {imr:#x} -> {out['regs']['IMR']:#x} expected {exp_imr:#x}", wit)
     return {"n": n, "cases": n, "vb": vb}
 
 
@@ -231,7 +233,7 @@ def run(ctx) -> None:
         "rule": (f"every structural shape for prefix set {sorted(str(p) for p in pres)} at {len(ADDRS_ANY)} addresses "
                  f"({len(ADDRS_CF)} boundary addresses for control-flow opcodes) x the 4 C/Z values; control-flow opcodes additionally with "
                  "all 256 displacement bytes / a 12-value palette per target byte; metadata from get_instruction_info compared with "
-                 "the PC reached by Emulator.execute_instruction; pairs: CALL..RET, CALLF..RETF, IR..RETI x 7 callee bodies (incl. ones that move BP/PX/PY) x "
+                 "the PC reached by Emulator.execute_instruction; pairs: CALL..RET, CALLF..RETF, IR..RETI x 8 callee bodies (incl. ones that move BP/PX/PY or rewrite IMR) x "
                  f"{len(ADDRS_CF) + 2} addresses x flags x IMR. distinct_nontrivial = distinct (encoding, address) cases."),
         "samples": [{"bytes": "1a05", "addr": "0xfffe", "flags": [0, 1, 2, 3]}, {"pair": "CALLF", "addr": "0xfffc", "body": "pushs_pops"}],
     })
